@@ -44,7 +44,7 @@ from prov.constants import (
     PROV_ATTR_USED_ENTITY,
     PROV_ASSOCIATION,
 )
-from prov.serializers import Serializer
+from prov.serializers import Serializer, is_text_stream
 
 
 __author__ = "Satrajit S. Ghosh"
@@ -144,7 +144,7 @@ class ProvRDFSerializer(Serializer):
             # Right now this is a bytestream. If the object to stream to is
             # a text object is must be decoded. We assume utf-8 here which
             # should be fine for almost every case.
-            if isinstance(stream, io.TextIOBase):
+            if is_text_stream(stream):
                 stream.write(buf.read().decode("utf-8"))
             else:
                 stream.write(buf.read())
